@@ -124,6 +124,39 @@ def _first_root_pos(E, t):
     return r
 
 
+def tree_unchanged(t, t0):
+    """frame clause "the input tree is untouched": `t` (the object as it is now) against its entry snapshot `t0`:
+    same ndata keys, every column of the same length with the same entries, source / comments / names as they were"""
+    from pyvc.values import Obj, PList, SArr
+
+    if not isinstance(t, Obj) or set(t.fields) != set(t0.fields):
+        return False
+    nd, nd0 = t.fields["ndata"].items, t0.fields["ndata"].items
+    if nd is None or nd0 is None or list(nd) != list(nd0):
+        return False
+    out = []
+    for c in nd0:
+        a, b = nd[c], nd0[c]
+        if type(a) is not type(b) or a.kind != b.kind:
+            return False
+        if isinstance(a, SArr):
+            out.append(a.nz() == b.nz())
+            if not a.arr.eq(b.arr):
+                i = z3.Int(fresh_name("i"))
+                out.append(z3.ForAll([i], z3.Implies(z3.And(i >= 0, i < b.nz()), z3.Select(a.arr, i) == z3.Select(b.arr, i))))
+        else:
+            if a.shape != b.shape:
+                return False
+            out.extend(to_z3(p, a.kind) == to_z3(q, a.kind) for p, q in zip(a.items, b.items))
+    for f in ("source", "names", "types"):
+        if f in t0.fields and t.fields[f] is not t0.fields[f] and t.fields[f] != t0.fields[f]:
+            return False
+    cm, cm0 = t.fields.get("comments"), t0.fields.get("comments")
+    if isinstance(cm0, PList) and (not isinstance(cm, PList) or cm.items != cm0.items):
+        return False
+    return z3.And(*out) if out else True
+
+
 def _M3(tm):
     it = tm.items
     return [[R(it[4 * r + c]) for c in range(4)] for r in range(3)]
@@ -169,9 +202,17 @@ def register_affine(Rg):
         same = [z3.Select(col(y, c).arr, i) == z3.Select(col(x0, c).arr, i) for c in ("id", "type", "r", "pid")]
         return z3.And(nof(y) == n, set(y.fields["ndata"].items) == set(x0.fields["ndata"].items), z3.ForAll([i], z3.Implies(z3.And(i >= 0, i < n), z3.And(*same))))
 
+    def xyz_lengths(E, v, o):
+        """every column of the result (the replaced x / y / z included) has the input's length"""
+        x0, y = o["x"], v["result"]
+        return z3.And(*[col(y, c).nz() == nof(x0) for c in y.fields["ndata"].items])
+
     def result_fresh(E, v, o):
         y = v["result"]
         return all(a.uid not in E.entry_uids for a in y.fields["ndata"].items.values()) and y.uid not in E.entry_uids and y.fields["ndata"].uid not in E.entry_uids
+
+    def input_untouched(name):
+        return (lambda E, v, o: tree_unchanged(v[name], o[name]))
 
     for center in ("origin", "root"):
         Rg.add(
@@ -202,6 +243,75 @@ def register_affine(Rg):
         setup=lambda S: dict(cls=__import__("swcgeom.transforms.geometry", fromlist=["x"]).TranslateOrigin, x=sym_tree(S, "x")),
         requires=[has_root],
         ensures=[("root-moved-to-origin-rigidly", to_origin), ("topology-types-radii-untouched", untouched), ("result-is-fresh", result_fresh)],
+    )
+
+    # ------------------------------------------------------------------ AffineTransform.apply (static): ANY 4x4 matrix
+    def w_nonzero(E, v, o):
+        x0, it = v["x"], v["tm"].items
+        i = z3.Int(fresh_name("i"))
+        p = [z3.Select(col(x0, c).arr, i) for c in "xyz"]
+        w = R(it[12]) * p[0] + R(it[13]) * p[1] + R(it[14]) * p[2] + R(it[15])
+        return z3.ForAll([i], z3.Implies(z3.And(i >= 0, i < nof(x0)), w != 0))
+
+    def projective(E, v, o):
+        """every node p -> (M (p,1))[0:3] / (M (p,1))[3]"""
+        x0, y, tm = o["x"], v["result"], o["tm"]
+        i = z3.Int(fresh_name("i"))
+        p = tuple(z3.Select(col(x0, c).arr, i) for c in "xyz")
+        q = [z3.Select(col(y, c).arr, i) for c in "xyz"]
+        h = act(tm, p)
+        return z3.ForAll([i], z3.Implies(z3.And(i >= 0, i < nof(x0)), z3.And(*[q[k] * h[3] == h[k] for k in range(3)], h[3] != 0)))
+
+    def matrix_untouched(name):
+        def f(E, v, o):
+            a, b = v[name] if name in v else v["self"].fields[name], o[name] if name in o else o["self"].fields[name]
+            return a.shape == b.shape and z3.And(*[R(x) == R(y) for x, y in zip(a.items, b.items)])
+
+        return f
+
+    def apply_setup(S):
+        tm = NArr((4, 4), [S.real(f"m{r}{c}") for r in range(4) for c in range(4)], "real")
+        tm.frozen = True
+        return dict(x=sym_tree(S, "x"), tm=tm)
+
+    Rg.add(
+        f"{GEO}:AffineTransform.apply", prop="C12", setup=apply_setup,
+        requires=[("homogeneous-coordinate-nonzero-at-every-node", w_nonzero)],
+        ensures=[("every-node-p-goes-to-(M.p)/w", projective), ("topology-types-radii-untouched", untouched), ("coordinate-columns-keep-their-length", xyz_lengths),
+                 ("result-is-fresh", result_fresh), ("input-untouched", input_untouched("x")), ("matrix-untouched", matrix_untouched("tm"))],
+        notes="any 4x4 matrix whose homogeneous coordinate does not vanish on the nodes (numpy would give inf/nan there)",
+    )
+
+    # ------------------------------------------------------------------ AffineTransform.__init__
+    def init_setup(center, fmt, names):
+        def f(S):
+            from swcgeom.transforms.geometry import AffineTransform
+
+            tm = NArr((4, 4), [S.real(f"m{r}{c}") for r in range(4) for c in range(4)], "real")
+            tm.frozen = True
+            return dict(self=S.obj(AffineTransform), tm=tm, center=center, fmt=fmt, names=names)
+
+        return f
+
+    def warned(E, v, o):
+        return len(E.warn_log) == (o["fmt"] is not None) + (o["names"] is not None)
+
+    Rg.add(
+        f"{GEO}:AffineTransform.__init__", prop="C12",
+        variants={"center=origin": init_setup("origin", None, None), "center=root": init_setup("root", None, None), "center=soma": init_setup("soma", None, None),
+                  "fmt-given": init_setup("origin", "Rotate-1-0-0-0.5000", None), "names-given": init_setup("root", None, __import__("swcgeom.core.swc_utils", fromlist=["x"]).get_names())},
+        ensures=["stores-the-matrix-it-was-given :: same(self.tm, tm)", "centre-as-requested :: self.center == center",
+                 ("matrix-untouched", matrix_untouched("tm")), ("one-deprecation-warning-per-deprecated-argument", warned)],
+        notes="no validation of `center` exists in the code: any value other than 'root' / 'soma' is treated as 'origin' by __call__",
+    )
+
+    # ------------------------------------------------------------------ TranslateOrigin.__call__ (plumbing to the classmethod)
+    Rg.add(
+        f"{GEO}:TranslateOrigin.__call__", prop="C12",
+        setup=lambda S: dict(self=S.obj(__import__("swcgeom.transforms.geometry", fromlist=["x"]).TranslateOrigin), x=sym_tree(S, "x")),
+        requires=[has_root],
+        ensures=[("root-moved-to-origin-rigidly", to_origin), ("topology-types-radii-untouched", untouched), ("coordinate-columns-keep-their-length", xyz_lengths),
+                 ("result-is-fresh", result_fresh), ("input-untouched", input_untouched("x"))],
     )
 
 
